@@ -37,6 +37,7 @@ pub fn build_java(dir: &std::path::Path, descs: Vec<RemoteDesc>) -> (Vec<RemoteD
                 let src = src.clone();
                 let out = dir.join("out");
                 sc.spawn(move || {
+                    let _slot = crate::compile::compile_slot();
                     let files: Vec<_> = std::fs::read_dir(src.join(format!("p{}", rd.idx))).map(|r| r.flatten().map(|e| e.path()).collect()).unwrap_or_default();
                     let o = Command::new("javac").arg("-d").arg(&out).arg("-nowarn").args(&files).output();
                     if let (Ok(o), true) = (&o, std::env::var("PDLV_SURVEY").is_ok()) {
